@@ -373,6 +373,8 @@ def run_chain(stmts, env, atoms=None, depth=0, effects=None):
     for s in stmts:
         if isinstance(s, ast.Expr) and isinstance(s.value, ast.Constant):
             continue
+        if isinstance(s, ast.Pass):
+            continue
         if effects is not None:
             if isinstance(s, ast.Expr) or (isinstance(s, (ast.For, ast.While)) and not any(isinstance(x, (ast.Return, ast.Raise, ast.Break)) for x in ast.walk(s))) or (isinstance(s, (ast.Assign, ast.AugAssign)) and all(isinstance(t, (ast.Subscript, ast.Attribute)) for t in (s.targets if isinstance(s, ast.Assign) else [s.target]))):
                 effects.append(s)
